@@ -36,6 +36,8 @@ func difference(a map[string]string, b map[string]bool) []string {
 			new = append(new, key1)
 		}
 	}
+	// (sorted, so that the generated code does not depend on map iteration order)
+	sort.Strings(new)
 	return new
 }
 
